@@ -6,7 +6,9 @@ import (
 	"context"
 	"errors"
 	"fmt"
+	"runtime"
 	"sort"
+	"strings"
 	"sync"
 	"testing"
 	"time"
@@ -57,6 +59,58 @@ func (s *vsec) HandleAsyncError(err error) {
 	s.mu.Unlock()
 }
 
+// vworkerState looks at the goroutine of the (single) secondary-cache worker: "yield" = inside the schedule hook,
+// "idle" = blocked in its select with nothing to take, "busy" = anything else, "gone" = no such goroutine.
+func vworkerState() string {
+	buf := make([]byte, 1<<20)
+	n := runtime.Stack(buf, true)
+	for _, g := range strings.Split(string(buf[:n]), "\n\n") {
+		if !strings.Contains(g, ".processSecondary") {
+			continue
+		}
+		if strings.Contains(g, "verifYield") {
+			return "yield"
+		}
+		if nl := strings.Index(g, "\n"); nl > 0 && strings.Contains(g[:nl], "[select") {
+			return "idle"
+		}
+		return "busy"
+	}
+	return "gone"
+}
+
+// vworkerParked decides, independently of timing, whether the worker holds an item (it then stops at schedule point 31)
+// or has nothing to do: a hand-off that found the worker waiting wakes it, and it is "busy" until it reaches the hook.
+func vworkerParked(reached chan struct{}, queued func() int) bool {
+	for i := 0; ; i++ {
+		select {
+		case <-reached:
+			return true
+		default:
+		}
+		if i >= 3 {
+			switch vworkerState() {
+			case "idle":
+				if queued() == 0 {
+					select {
+					case <-reached:
+						return true
+					default:
+					}
+					return false
+				}
+			case "gone":
+				return false
+			}
+		}
+		if i < 50 {
+			runtime.Gosched()
+		} else {
+			time.Sleep(50 * time.Microsecond)
+		}
+	}
+}
+
 // C14 / C15: hybrid store with one gated worker (hook H4), scripted secondary failures.
 func TestVerifHybrid(t *testing.T) {
 	tr := vopen(t, "hybrid")
@@ -104,6 +158,9 @@ func TestVerifHybrid(t *testing.T) {
 		s.timerwheel.nanos = start
 		s.timerwheel.clock.SetNowCache(start)
 		VerifYield.Store(&fn)
+		for i := 0; vworkerState() != "gone" && i < 100000; i++ { // workers of earlier cases have to be gone
+			time.Sleep(20 * time.Microsecond)
+		}
 		go s.processSecondary()
 		ls := NewLoadingStore(s)
 		lerr, lval, lcost, lttl, lcalls := false, 0, int64(1), int64(0), 0
@@ -244,11 +301,7 @@ func TestVerifHybrid(t *testing.T) {
 				tr.op("sink", ss("3", i64(int64(j)), i64(now), ca, "0"), notes)
 			case x < 95: // the worker processes one hand-off item
 				if !parked {
-					select {
-					case <-reached:
-						parked = true
-					case <-time.After(3 * time.Millisecond):
-					}
+					parked = vworkerParked(reached, func() int { return len(s.secondaryCacheBuf) })
 				}
 				if !parked {
 					continue
@@ -270,11 +323,7 @@ func TestVerifHybrid(t *testing.T) {
 				}
 				sort.Ints(keys)
 				if !parked {
-					select {
-					case <-reached:
-						parked = true
-					case <-time.After(3 * time.Millisecond):
-					}
+					parked = vworkerParked(reached, func() int { return len(s.secondaryCacheBuf) })
 				}
 				inhand = len(s.secondaryCacheBuf)
 				if parked {
@@ -303,11 +352,7 @@ func TestVerifHybrid(t *testing.T) {
 		}
 		for {
 			if !parked {
-				select {
-				case <-reached:
-					parked = true
-				case <-time.After(5 * time.Millisecond):
-				}
+				parked = vworkerParked(reached, func() int { return len(s.secondaryCacheBuf) })
 			}
 			if !parked {
 				break
